@@ -104,6 +104,12 @@ class C01(C.PipelineCheck):
         for n in range(0, (3 if q else 4) + 1):
             yield ('validator-message/%d' % n, dict(kind='utf8', hole='m', n=n, modes=('zod',),
                                                     tpl=C.HEADER + '#[derive(Serialize, Deserialize)]\npub struct Foo { #[validate(length(min = 1, max = 5, message = "HOLE_m"))] pub a: String }\n' + CMD + 'cmd(x: Foo) -> i32 { 0 }\n'))
+        # a message on every validator that can carry one (the tool may ignore it, but must not emit it unescaped)
+        for vform in ('email(message = "HOLE_m")', 'url(message = "HOLE_m")', 'range(min = 1, message = "HOLE_m")', 'length(equal = 3, message = "HOLE_m")',
+                      'custom(function = "f", message = "HOLE_m")', 'email, length(min = 1, message = "HOLE_m")'):
+            for n in ((1, 2) if q else (1, 2, 3)):
+                yield ('validator-message-on/%s/%d' % (vform.split('(')[0].split(',')[0], n), dict(kind='utf8', hole='m', n=n, modes=('zod',),
+                       tpl=C.HEADER + '#[derive(Serialize, Deserialize)]\npub struct Foo { #[validate(%s)] pub a: String, pub n: i32 }\n' % vform + CMD + 'cmd(x: Foo) -> i32 { 0 }\n'))
         for tgt in ('string', 'number', 'boolean'):
             for src_name, use in (('Uuid', 'Uuid'), ('PathBuf', 'PathBuf'), ('DateTime<Utc>', 'DateTime<Utc>')):
                 yield ('mapping/%s/%s' % (tgt, src_name), dict(kind='concrete', config={'type_mappings': {src_name: tgt}},
